@@ -29,7 +29,7 @@ ASSUMPTIONS = [
     "a reply counts as delivered for a call when a datagram of its response verb reaches the client inside one of the call's attempt windows, opened 6 x (poll + J) early for datagrams still waiting in the receive queue (sequence numbers are not echoed by the spa, so replies cannot be matched exactly)",
 ]
 BUDGET = {
-    "quick": {"workers": 16, "examples": 960},
+    "quick": {"workers": 16, "examples": 2400},
     "thorough": {"workers": 16, "examples": 24000},
 }
 
